@@ -5,7 +5,7 @@
 D="$1"; shift
 PROPS="$@"; [ -z "$PROPS" ] && PROPS="C01 C02 C03 C04 C05 C06 C07 C08 C09 C10 C11 C12 C13 C14 C15 C16 C17 C18 C19 C20"
 W=/dev/shm/neutraltry-$$
-git -C /repo worktree add -q --detach "$W" HEAD || exit 2
+git -C /repo worktree add -q --detach "$W" ${BASE:-HEAD} || exit 2
 cd "$W" || exit 2
 git apply "$D/patch.diff" 2>/dev/null || git apply --3way "$D/patch.diff" || { echo "PATCH DOES NOT APPLY"; cd /; git -C /repo worktree remove --force "$W"; exit 2; }
 T=$(/venv/bin/python -m pytest -q -p no:cacheprovider 2>&1 | tail -1)
